@@ -837,7 +837,7 @@ func main() {
 		// case / non-ASCII / empty) and random arguments (far DateTimes, foreign cursors)
 		nRandom := 6000
 		if thorough {
-			nRandom = 200000
+			nRandom = 600000
 		}
 		for i := 0; i < nRandom; i++ {
 			h.Case(func(r *rng.R) sexp.Node {
@@ -896,7 +896,7 @@ func main() {
 		// F. hostile stream: both / neither / negative counts, undecodable cursor strings
 		nHostile := 600
 		if thorough {
-			nHostile = 10000
+			nHostile = 20000
 		}
 		for i := 0; i < nHostile; i++ {
 			h.Case(func(r *rng.R) sexp.Node {
